@@ -77,6 +77,18 @@ CLAIMED = {
         note='Trusted: rustc drop elaboration; the book as the list of handlers. Two exemptions with reasons in rules/c06.py (E_EXEMPT).',
         technique='static analysis: path-sensitive drop/linearity analysis (drop flags × discriminants) and combinator inventory on resolved MIR',
         design='2/C06'),
+    'C14': dict(
+        level='other',
+        text='Representation-invariant and operator-discipline rules decided for every constructor site, match arm and operator application '
+             'of LazyBigint (syntax tree): Long(e) only where e cannot fit i64 (overflow branch of checked_*, recomputed with the same '
+             'operator; failed try_into; MIN arms; listed assert sites) — the canonical form on which derived equality, hash, text and the '
+             'mixed comparison arms rely; overflow-capable machine arithmetic on the small form only behind arms excluding (MIN,-1)/MIN; '
+             'impls of Op/OpAssign apply only Op; swapped or-patterns only in commutative operators; Rem floored as documented; mixed '
+             'comparison arms mirrored; the int builtins register the operator of the same name. NOT decided: exactness of gcd/lcm/'
+             'factorial/roots/binom/multinom arithmetic and of text/float conversions (value-level).',
+        note='Trusted: syn parse; i64 checked_* and num-bigint semantics; the book for the rounding mode of mod.',
+        technique='static analysis: syntax-tree rules (constructor-site classification, arm-order guards, operator/trait agreement, table agreement with the book)',
+        design='2/C14'),
 }
 
 NA_REASONS = {
